@@ -715,11 +715,8 @@ def run_case(ctx, uf, method, ops, outspec, kw, ref0=None, extra_tags=()):
                     r_outs.append(ro)
         except _NoOut:
             return False
-        if ctx.family == 'discr' and method == '__call__' and np.shape(refs0[0]) != ctx.shape:
-            ctx.skipped += 1    # result larger than the element: unspecified
-            return False
         if method == '__call__' and np.shape(refs0[0]) != ctx.shape:
-            ctx.skipped += 1
+            ctx.skipped += 1    # result larger than the element: unspecified
             return False
 
     # ---- NumPy on the underlying arrays
@@ -869,7 +866,7 @@ def sec_call(ctx, uf, full):
         ctx.skipped += n0 - len(outs) - len(outs_kw) - len(outs_full)
     mask = _mask(ctx.shape)
     for mi, ops in enumerate(mixes):
-        first_fill = ops[0][-1] in ('a1', 'b1') or mi >= 14
+        first_fill = mi == 0 if uf.nin == 1 else (mi < 7 or mi >= 14)
         for o in outs + (outs_full if full else []):
             if run_case(ctx, uf, '__call__', ops, o, {}) is False and o in ('none',
                                                                             ('none', 'none')):
@@ -888,6 +885,18 @@ def sec_call(ctx, uf, full):
                 run_case(ctx, uf, '__call__', ops, outs[0], {'order': 'F'})
                 run_case(ctx, uf, '__call__', ops, outs[1] if len(outs) > 1 else outs[0],
                          {'casting': 'unsafe', 'dtype': DTYPE_KW[ctx.dt][0]})
+    _call_foreign_out(ctx, uf)
+
+
+def _call_foreign_out(ctx, uf):
+    """Plain tensors as operands, a discretized element as ``out``: NumpyTensor.__array_ufunc__
+    answers NotImplemented for the foreign ``out`` type and NumPy hands the call on to the
+    element given as ``out`` ("with out= the result is written into and returned as the given
+    element")."""
+    if ctx.family != 'discr' or uf.nout != 1:
+        return
+    ops = [('T', 'a1')] if uf.nin == 1 else [('T', 'a1'), ('T', 'b1')]
+    run_case(ctx, uf, '__call__', ops, 'elem', {})
 
 
 def _axis_alphabet(ndim, full):
@@ -1011,16 +1020,19 @@ def sec_outer(ctx, uf, full):
 
 
 def _at_indices(shape, full):
+    """Index alphabets for ufunc.at: lists with and without repeated entries, an integer, a
+    slice, a boolean mask, tuples mixing them (m = last valid index of the last axis)."""
+    m = shape[-1] - 1
     if len(shape) == 1:
-        idx = [[0, 2], [0, 0, 1], [1], 1, slice(0, 2), np.array([True, False, True])]
+        idx = [[0, m], [0, 0, 1], [1], 1, slice(0, 2), np.arange(shape[0]) % 2 == 0]
         if full:
-            idx += [np.array([2, 0]), [-1, 0]]
+            idx += [np.array([m, 0]), [-1, 0]]
     elif len(shape) == 2:
-        idx = [([0, 1], [1, 2]), (0, [0, 2]), ([1, 1], [0, 0]), 0, (slice(None), 1), [0, 1]]
+        idx = [([0, 1], [1, m]), (0, [0, m]), ([1, 1], [0, 0]), 0, (slice(None), 1), [0, 1]]
         if full:
-            idx += [(1, 2), ([0, -1], [-1, 0])]
+            idx += [(1, m), ([0, -1], [-1, 0])]
     else:
-        idx = [([0, 1], [0, 0], [1, 2]), 0, (1, 0, [0, 0, 2]), (slice(None), 0, 1)]
+        idx = [([0, 1], [0, 0], [1, m]), 0, (1, 0, [0, 0, m]), (slice(None), 0, 1)]
     return idx
 
 
@@ -1502,12 +1514,13 @@ def sec_wrap(ctx, full):
 
 def _hist_ops(ctx):
     nd = ctx.ndim
+    m = ctx.shape[-1] - 1
     if nd == 1:
-        i1, i2, i3 = [0, 2], [0, 0, 1], [1]
+        i1, i2, i3 = [0, m], [0, 0, 1], [1]
     elif nd == 2:
-        i1, i2, i3 = ([0, 1], [1, 2]), ([1, 1], [0, 0]), (0, [0, 2])
+        i1, i2, i3 = ([0, 1], [1, m]), ([1, 1], [0, 0]), (0, [0, m])
     else:
-        i1, i2, i3 = ([0, 1], [0, 0], [1, 2]), ([1, 1], [0, 0], [0, 0]), (0, 0, [0, 2])
+        i1, i2, i3 = ([0, 1], [0, 0], [1, m]), ([1, 1], [0, 0], [0, 0]), (0, 0, [0, m])
     n1 = len(np.zeros(ctx.shape)[i1])
     v1 = fill(ctx.dt, (n1,), 'b1')
     sc = SCALAR[ctx.dt]
